@@ -39,7 +39,10 @@ RPC_BODY = b'{"jsonrpc":"2.0","id":1,"method":"core.get_version"}'
 HOSTS = ["localhost", "localhost:6680", "127.0.0.1:6680", "music.example", "music.example:6680",
          "example.com.", "[::1]:6680", "[::1]", "a", "LocalHost:6680", "MUSIC.example"]
 ALLOW_CFGS = ["", "allowed.example:80", "Allowed.Example, other:8080", "localhost.evil.com\n  MUSIC.EXAMPLE\n",
-              "\xc0b.example, evil.example", "null, file"]
+              "\xc0b.example, evil.example", "null, file",
+              # entries with shell-glob metacharacters: the allow-list is a SET of literal netlocs
+              "[::1]:6680", "[::1]:6680, *.example, music?.example:6680", "*", "[a-c]x.example:80\n*.EXAMPLE\n?",
+              "[0:0:0:0:0:0:0:1]:6680, allowed.example:80"]
 SCHEMES = ["http", "https", "HTTP", "file", "ws", "chrome-extension", "ht+t.p-1", "h"]
 BAD_SCHEMES = ["1http", "h*tp", "", "+http", "ht tp", "h\xe9"]
 EVIL = ["evil.example", "evil.example:6680", "localhost.evil.example", "evillocalhost", "localhos",
@@ -63,11 +66,25 @@ def allow_items(cfg):
     return [p.strip() for p in parts if p.strip()]
 
 
+def glob_instance(rng, item):
+    """A string that the entry would match if it were read as an fnmatch pattern, but that is
+    not the entry itself: '*' -> some text, '?' -> one character, '[...]' -> one member."""
+    import re
+
+    out = re.sub(r"\[([^\]]+)\]", lambda m: rng.choice([c for c in m.group(1) if c != "-"] or ["x"]), item)
+    out = out.replace("*", rng.choice(["evil", "evil.example", "a.b", ""])).replace("?", rng.choice(["x", "1", "e"]))
+    return out
+
+
 def gen_hostport(rng, host, allow_cfg):
     """A netloc chosen relative to the request's Host and the allow-list."""
     items = allow_items(allow_cfg)
-    k = rng.weighted([("same", 5), ("allowed", 4 if items else 0), ("evil", 4), ("near", 4), ("weird", 3)])
-    if k == "same" and host:
+    globby = [i for i in items if any(ch in i for ch in "*?[")]
+    k = rng.weighted([("same", 5), ("allowed", 4 if items else 0), ("evil", 4), ("near", 4), ("weird", 3),
+                      ("glob", 6 if globby else 0)])
+    if k == "glob":
+        h = glob_instance(rng, rng.choice(globby).lower())
+    elif k == "same" and host:
         h = host
     elif k == "allowed" and items:
         h = rng.choice(items)
@@ -603,6 +620,8 @@ def http_stage(chk, cases):
             allow_now = SERVERS.get(case["csrf"], case["allow_cfg"]).config["http"]["allowed_origins"]
             chk.dist("http:accepted-because:" + ("empty-netloc" if not n else "allow-list" if n in allow_now else
                                                   "host" if n == seen["Host"] else "?"))
+        if case["csrf"] and any(ch in case["allow_cfg"] for ch in "*?["):
+            chk.dist("http:allow-list-with-glob-metacharacters")
         if case["csrf"] and case["kind"] == "post" and obs["status"] == 200:
             chk.dist("http:post-executed:" + ("cors-echo" if seen["Origin"] is not None else "no-origin"))
         nontrivial = case["csrf"] and (oc not in ("absent",) or case["kind"] == "post")
